@@ -77,4 +77,12 @@ theorem C14_load_takes_saved_flags :
       [("parse_command_line", "skip_brute", "args.skip_brute"), ("parse_command_line", "skip_case", "args.skip_case")] := by
   decide
 
+/-- the save file the flags are read back from is the one of the session named on the command line: the only assignment to
+`program_info['session_name']` is `args.session`, unchanged (regenerated from the source), so `--load` of one session never takes
+the flags another session saved -/
+theorem C14_session_name_is_the_typed_name :
+    Generated.CliOptions.guesserAssign.filter (fun a => a.2.1 == "session_name") =
+      [("parse_command_line", "session_name", "args.session")] := by
+  decide
+
 end Pcfg.C14
